@@ -19,10 +19,10 @@ const WPlan WPLANS[] = {
 	/* both checks: */ { { MSS + 1, 700 }, 3, "w[mss+1,700] first write during the handshake" } };
 int const N_WPLANS_ALL = 9;
 inline bool wplan_for_stream(int wp) { return wp < 6 || wp == 8; }
-enum RStyle { R_ASYNC, R_WAIT_NONBLOCK, R_ONCE, R_LATE /* the first read is posted 500 ms after the connection is up: everything, end-of-file included, may be queued by then */ };
+enum RStyle { R_ASYNC, R_WAIT_NONBLOCK, R_ONCE, R_LATE /* the first read is posted 500 ms after the connection is up: everything, end-of-file included, may be queued by then */, R_MOVE_AFTER_FIRST /* after its first read completed - typically with part of a queued segment - a side that has no operation outstanding is move-constructed into a new socket object and goes on reading there */, R_LATE_MOVED /* as R_LATE, and a side that has no operation outstanding at that moment is first move-constructed into a new socket object (received, reordered and unacknowledged segments move along) */ };
 struct RPlan { RStyle style; std::vector<int> bufs; const char* name; };
 const RPlan RPLANS[] = { { R_ASYNC, { 7 }, "read(7)" }, { R_ASYNC, { MSS }, "read(mss)" }, { R_ASYNC, { 100, 4096 }, "read(100+4096)" }, { R_WAIT_NONBLOCK, { 1000 }, "wait+read_some(1000)*" }, { R_ONCE, { 500 }, "read(500) once, then stop" },
-	{ R_LATE, { 1, 4096 }, "late read(1+4096)" }, { R_LATE, { 100, 4096 }, "late read(100+4096)" } };
+	{ R_LATE, { 1, 4096 }, "late read(1+4096)" }, { R_LATE, { 100, 4096 }, "late read(100+4096)" }, { R_LATE_MOVED, { 100, 4096 }, "socket moved, then late read(100+4096)" }, { R_MOVE_AFTER_FIRST, { 100 }, "read(100), socket moved, read(100)*" } };
 enum CloseMode { C_NEVER, C_AFTER_ALL, C_AFTER_FIRST, C_WHEN_DONE /* all written and 2001 bytes received (second connection) */ };
 const char* CLOSE_NAME[] = { "no-close", "close-after-all-writes", "close-after-first-write" };
 enum Dir { D_AB, D_BA, D_BOTH };
@@ -48,7 +48,7 @@ struct Exec
 {
 	Cfg cfg; Chooser* ch; Ctx* ctx; int N; int max_dev_unused = 0;
 	std::vector<std::string> fails, log;
-	uint64_t drops = 0, holds = 0, handlers = 0, n_eof = 0, retrans_seen = 0;
+	uint64_t drops = 0, holds = 0, handlers = 0, n_eof = 0, retrans_seen = 0, moves = 0;
 	std::unique_ptr<World> w; std::unique_ptr<sim::simulation> sim; std::unique_ptr<asio::io_context> nA, nB;
 	std::unique_ptr<ip::tcp::socket> cli, srv; std::unique_ptr<ip::tcp::acceptor> acc;
 	std::shared_ptr<Adversary> adv; int points = 0, eof_points = 0; bool adversary_on = true;
@@ -115,6 +115,11 @@ struct Exec
 			size_t left = n; for (auto& x : rd.rbufs) { size_t k = std::min(left, x.size()); if (k) consume(rd, wr, x.data(), k); left -= k; }
 			++rd.reads_done;
 			if (rd.rp->style == R_ONCE) { rd.reading = false; return; }
+			if (rd.rp->style == R_MOVE_AFTER_FIRST && rd.reads_done == 1 && !rd.writer_active && !rd.closed) {
+				std::unique_ptr<ip::tcp::socket>& up = &rd == &a ? cli : srv;
+				lg(fmt("@%lld the socket reading stream %d is move-constructed into a new object after its first read (%zu bytes)", (long long)now_ns(), wr.wdir, n));
+				ip::tcp::socket* m = new ip::tcp::socket(std::move(*up)); up.reset(m); rd.s = m; ++moves;
+			}
 			post_read(rd, wr);
 		});
 	}
@@ -152,9 +157,15 @@ struct Exec
 	{
 		if (!(connected && accepted)) return;
 		for (Side* rd : { &a, &b }) { Side* wr = rd == &a ? &b : &a;
-			if (rd->rp->style != R_LATE) { post_read(*rd, *wr); continue; }
+			if (rd->rp->style != R_LATE && rd->rp->style != R_LATE_MOVED) { post_read(*rd, *wr); continue; }
 			late.emplace_back(new asio::high_resolution_timer(*nA)); late.back()->expires_after(ms(500));
-			late.back()->async_wait([this, rd, wr](error_code const& ec) { if (ec) return; tick(); post_read(*rd, *wr); }); }
+			late.back()->async_wait([this, rd, wr](error_code const& ec) { if (ec) return; tick();
+				if (rd->rp->style == R_LATE_MOVED && !rd->writer_active && !rd->closed) {
+					std::unique_ptr<ip::tcp::socket>& up = rd == &a ? cli : srv;
+					lg(fmt("@%lld the socket reading stream %d is move-constructed into a new object", (long long)now_ns(), wr->wdir));
+					ip::tcp::socket* m = new ip::tcp::socket(std::move(*up)); up.reset(m); rd->s = m; ++moves;
+				}
+				post_read(*rd, *wr); }); }
 		pump_write(a); pump_write(b);
 		if (cancel_ms >= 0 && inc == 1 && !cancel_timer) {
 			cancel_timer.reset(new asio::high_resolution_timer(*nA)); cancel_timer->expires_after(ms(cancel_ms));
